@@ -151,6 +151,7 @@ pub fn run_case(case: &Case) -> Outcome {
         "immut" => by_ty!(case.ty, k_immut(case)),
         "guard" => by_ty!(case.ty, k_guard(case)),
         "history" => by_ty!(case.ty, k_history(case)),
+        "planlife" => by_ty!(case.ty, k_planlife(case)),
         "threads" => by_ty!(case.ty, k_threads(case)),
         "config" => by_ty!(case.ty, k_config(case)),
         "exact" => k_exact(case),
